@@ -38,29 +38,5 @@ def judge(pre, op, out, ctx):
                             'PushedStreamReceived'), 'server-reports-response', F.op_label(op))
 
 
-def frame_alphabet(client, sids):
-    return [o for o in F.alphabet(client, sids=sids, push=True) if o[0].isupper()]
-
-
 def shards(tier, seed):
-    out = []
-    depth = 9 if tier == 'thorough' else 3
-    for client in (True, False):
-        cat = F.get_catalogue(client, depth)
-        entries = cat[0]
-        sel = F.select_entries(entries, tier, seed, quick_depth=2, quick_sample=10,
-                               thorough_cap=10 ** 6)
-        out += F.entry_shards('one', client, sel, frame_alphabet(client, (1,)), judge,
-                              cat=cat, build_ops=F.build_alphabet(client))
-        pentries, _c, _k = F.get_catalogue(client, 3 if tier == 'thorough' else 2, push=True)
-        pentries = [e for e in pentries if any(o[0] in ('push', 'PP') for o in e[0])]
-        psel = F.select_entries(pentries, tier, seed, quick_depth=2, quick_sample=10)
-        out += F.entry_shards('push', client, psel, frame_alphabet(client, (1, 2)), judge)
-        tentries, _c, _k = F.get_catalogue(client, 2 if tier == 'quick' else 3, two=True)
-        tsel = F.select_entries(tentries, tier, seed, quick_depth=2, quick_sample=6)
-        out += F.entry_shards('two', client, tsel, frame_alphabet(client, (1, 2, 3, 5)), judge)
-        uentries, _c, _k = F.get_catalogue(client, 2 if tier == 'quick' else 3, upgrade=True)
-        usel = F.select_entries(uentries, tier, seed, quick_depth=1, quick_sample=6)
-        out += F.entry_shards('upgrade', client, usel, frame_alphabet(client, (1,)), judge,
-                              upgrade=True)
-    return out
+    return F.standard_shards(tier, seed, judge, alpha_filter=lambda o: o[0].isupper())
